@@ -10,7 +10,7 @@ use std::collections::BTreeSet;
 use std::sync::atomic::Ordering;
 use std::sync::Arc;
 
-pub const COUNTERS: &[&str] = &["values", "unary_law_checks", "binary_pairs", "binary_law_checks", "single_squares", "supplementary_values", "irregular_value_law_checks", "iterator_protocol_checks"];
+pub const COUNTERS: &[&str] = &["values", "unary_law_checks", "binary_pairs", "binary_law_checks", "single_squares", "supplementary_values", "irregular_value_law_checks", "iterator_protocol_checks", "irregular_pairs"];
 
 fn model(b: u64) -> BTreeSet<u8> {
     (0..64u8).filter(|s| b & (1u64 << s) != 0).collect()
@@ -126,6 +126,19 @@ fn iter_protocol(run: &Run, x: u64) -> u64 {
     if b.count() != m.len() || b.last().map(rsq) != m.last().copied() || b.min().map(rsq) != m.first().copied() || b.max().map(rsq) != m.last().copied() {
         bad("count/last/min/max", format!("count / last / min / max of {x:#018x} disagree with its members"));
     }
+    {
+        let mut seen: Vec<u8> = vec![];
+        b.for_each(|s| seen.push(rsq(s)));
+        let mut seen2: Vec<u8> = vec![];
+        let mut b2 = b;
+        let r: Result<(), ()> = b2.try_for_each(|s| {
+            seen2.push(rsq(s));
+            Ok(())
+        });
+        if seen != m || seen2 != m || r.is_err() || b.reduce(|a, _| a).map(rsq) != m.first().copied() || b.map(rsq).collect::<Vec<u8>>() != m || b.max_by_key(|s| rsq(*s)).map(rsq) != m.last().copied() || b.min_by_key(|s| rsq(*s)).map(rsq) != m.first().copied() {
+            bad("for_each/try_for_each/reduce/collect/max_by_key", format!("a consuming adaptor over {x:#018x} disagrees with its members (for_each visited {:?})", seen));
+        }
+    }
     if b.fold(0u64, |a, s| a.wrapping_mul(67).wrapping_add(rsq(s) as u64 + 1)) != m.iter().fold(0u64, |a, s| a.wrapping_mul(67).wrapping_add(*s as u64 + 1)) {
         bad("fold", format!("fold over {x:#018x} disagrees with its members"));
     }
@@ -215,6 +228,10 @@ fn binary(run: &Run, x: u64, y: u64) -> u64 {
     t ^= &b;
     ok &= t.0 == xor;
     ok &= (a == b) == (x == y);
+    // `*` is not a set operator and its value is not judged; but its four owned / borrowed forms must agree with
+    // each other (none may panic where another answers)
+    let forms = [guard::lib(|| (a * b).0), guard::lib(|| (&a * &b).0), guard::lib(|| (a * &b).0), guard::lib(|| (&a * b).0)];
+    ok &= forms.iter().all(|f| f.is_ok() == forms[0].is_ok() && (f.is_err() || f == &forms[0]));
     if !ok {
         run.report(Violation::new("C20", "binary-operator", "", format!("an operator form on ({x:#018x}, {y:#018x}) is not intersection / union / symmetric difference"), json!({"kind": "bitboard-binary", "a": format!("{x:#018x}"), "b": format!("{y:#018x}")})));
     }
@@ -235,7 +252,7 @@ fn singles(run: &Run) {
     }
 }
 
-pub const RULE: &str = "value set V = all boards with at most 2 bits, their complements, all 256 unions of ranks, all 256 unions of files, the 30 diagonals, EMPTY and !EMPTY; unary laws (iteration ascending = members, popcnt, to_square = lowest, complement owned/borrowed, reverse_colors = rank flip, Display shape) on every value; binary laws (& | ^ in all four owned/borrowed combinations, six assigning forms, ==) on ALL pairs of V x V; from_square/to_square/set inverse on 64 squares; irregular values enumerated systematically: every 3- and 4-bit board (unary laws), quarter sweeps (each 16-bit quarter of the board through all 65536 contents under three contexts of the other quarters: unary laws, and binary laws against 12 fixed partners in both operand orders), popcount ladders (k lowest / highest / spread bits for every k). the iterator PROTOCOL on V, every 3-bit board, the ladders and a stride of the quarter sweeps: size_hint bounds at every point, stable exhaustion, count / last / min / max / fold, nth(i) for every i <= 70 and for i = 2^8, 2^16, 2^32, 2^48, 2^63 (+0..70), usize::MAX-70..=usize::MAX with the remaining items checked afterwards, skip / step_by / skip+step_by for k <= 9, skip(64, 65, 2^32, 2^32+1, usize::MAX), position / find / any / all. Oracle: BTreeSet<u8>. Because the operators are bit-sliced, pairs of <=2-bit boards put every bit position through every (0/1, 0/1) combination. A seeded list of arbitrary 64-bit values is a labelled supplementary sample outside the exhaustive claim. distinct_nontrivial = distinct ordered pairs with both operands non-empty";
+pub const RULE: &str = "value set V = all boards with at most 2 bits, their complements, all 256 unions of ranks, all 256 unions of files, the 30 diagonals, EMPTY and !EMPTY; unary laws (iteration ascending = members, popcnt, to_square = lowest, complement owned/borrowed, reverse_colors = rank flip, Display shape) on every value; binary laws (& | ^ in all four owned/borrowed combinations, six assigning forms, ==; the four forms of `*` must agree with one another) on ALL pairs of V x V; from_square/to_square/set inverse on 64 squares; irregular values enumerated systematically: every 3- and 4-bit board (unary laws), quarter sweeps (each 16-bit quarter of the board through all 65536 contents under three contexts of the other quarters: unary laws, and binary laws against 12 fixed partners in both operand orders), popcount ladders (k lowest / highest / spread bits for every k); binary laws on ALL ordered pairs of ~2,900 irregular values (strides of the 3-bit boards and the quarter sweeps, ladders, xorshift words, byte-replicated words, rotated runs); eq / cmp / zip / chain / try_fold over two iterators; Default. the iterator PROTOCOL on V, every 3-bit board, the ladders and a stride of the quarter sweeps: size_hint bounds at every point, stable exhaustion, count / last / min / max / fold, nth(i) for every i <= 70 and for i = 2^8, 2^16, 2^32, 2^48, 2^63 (+0..70), usize::MAX-70..=usize::MAX with the remaining items checked afterwards, skip / step_by / skip+step_by for k <= 9, skip(64, 65, 2^32, 2^32+1, usize::MAX), position / find / any / all. Oracle: BTreeSet<u8>. Because the operators are bit-sliced, pairs of <=2-bit boards put every bit position through every (0/1, 0/1) combination. A seeded list of arbitrary 64-bit values is a labelled supplementary sample outside the exhaustive claim. distinct_nontrivial = distinct ordered pairs with both operands non-empty";
 
 pub fn run(tier: Tier) -> i32 {
     let run = Arc::new(Run::new("C20", tier, COUNTERS));
@@ -330,7 +347,67 @@ pub fn run(tier: Tier) -> i32 {
     }
     let proto: u64 = protos.par_iter().map(|&x| if run.has_violation() { 0 } else { iter_protocol(&run, x) }).sum();
     run.add("iterator_protocol_checks", proto);
-    run.add("irregular_value_law_checks", small + sweep + ladder);
+    // irregular x irregular: ALL ordered pairs of a set of ~2,900 irregular values (a stride of the 3-bit boards,
+    // of each quarter sweep under each context, the ladders, xorshift words, shifted runs, byte-replicated words)
+    let mut irr: Vec<u64> = vec![];
+    {
+        let mut k = 0u64;
+        for a in 0..64u64 {
+            for b in (a + 1)..64 {
+                for c in (b + 1)..64 {
+                    k += 1;
+                    if k % 83 == 0 {
+                        irr.push((1u64 << a) | (1u64 << b) | (1u64 << c));
+                        irr.push(!((1u64 << a) | (1u64 << b) | (1u64 << c)));
+                    }
+                }
+            }
+        }
+        for q in 0..4u32 {
+            for ctx in contexts {
+                for val in (0..65536u64).step_by(401) {
+                    let qmask = 0xFFFFu64 << (16 * q);
+                    irr.push((ctx & !qmask) | (val << (16 * q)));
+                }
+            }
+        }
+        for k in 0..=64u32 {
+            irr.push(if k == 64 { !0u64 } else { (1u64 << k) - 1 });
+            irr.push(if k == 0 { 0 } else { !0u64 << (64 - k) });
+        }
+        let mut x = 0x2545_F491_4F6C_DD1Du64;
+        for _ in 0..400 {
+            x ^= x << 13;
+            x ^= x >> 7;
+            x ^= x << 17;
+            irr.push(x);
+        }
+        for b in 0..=255u64 {
+            irr.push(b * 0x0101_0101_0101_0101);
+        }
+        for len in [2u32, 3, 5, 9, 17, 31, 33] {
+            for sh in (0..64u32).step_by(3) {
+                irr.push((((1u128 << len) - 1) as u64).rotate_left(sh));
+            }
+        }
+        irr.sort();
+        irr.dedup();
+    }
+    let irr_pairs: u64 = irr.par_iter().map(|&x| irr.iter().map(|&y| if run.has_violation() { 0 } else { binary(&run, x, y) }).sum::<u64>()).sum();
+    run.add("irregular_pairs", (irr.len() * irr.len()) as u64);
+    // comparison adaptors over two iterators, and Default
+    for w in irr.windows(2).step_by(7) {
+        let (a, b) = (BitBoard(w[0]), BitBoard(w[1]));
+        let (ma, mb): (Vec<u8>, Vec<u8>) = (model(w[0]).into_iter().collect(), model(w[1]).into_iter().collect());
+        let ok = a.map(rsq).eq(ma.iter().copied()) && a.map(rsq).cmp(b.map(rsq)) == ma.cmp(&mb) && a.zip(b).count() == ma.len().min(mb.len()) && a.chain(b).map(rsq).collect::<Vec<u8>>() == ma.iter().chain(mb.iter()).copied().collect::<Vec<u8>>() && a.map(rsq).try_fold(0u64, |acc, s| acc.checked_add(s as u64)) == Some(ma.iter().map(|s| *s as u64).sum::<u64>());
+        if !ok {
+            run.report(Violation::new("C20", "iterator-protocol", "eq / cmp / zip / chain / try_fold", format!("a comparison or combining adaptor over {:#018x} and {:#018x} disagrees with their members", w[0], w[1]), json!({"kind": "bitboard-binary", "a": format!("{:#018x}", w[0]), "b": format!("{:#018x}", w[1])})));
+        }
+    }
+    if BitBoard::default().0 != 0 {
+        run.report(Violation::new("C20", "default", "", "BitBoard::default() is not the empty set".into(), json!({"kind": "bitboard-unary", "value": "0x0000000000000000"})));
+    }
+    run.add("irregular_value_law_checks", small + sweep + ladder + irr_pairs);
     // supplementary sample (labelled): xorshift values from the seed
     let mut s = run.seed ^ 0x9E3779B97F4A7C15;
     let mut supp = vec![];
